@@ -95,7 +95,9 @@ def run_shard(desc):
 
 def replay(case):
     res = new_result()
-    judge_circuit(case["circuit"], "all", "quick", res, only=case.get("inputs"), only_div=case.get("div"), ladder=len(case["circuit"]["components"]) > 6)
+    # the whole circuit is re-judged (every input combination and the settling runs), so that a violation found in a
+    # settling run or under another combination mode reproduces
+    judge_circuit(case["circuit"], "all", "quick", res, ladder=len(case["circuit"]["components"]) > 6)
     return res["violations"]
 
 
